@@ -25,7 +25,7 @@ CONVERT = (r"Into<.*>>::into$", r"From<.*>>::from$", r"Offset::into_u64$", r"Clo
 def r1_cursor(cx):
     F = cx.F
     n = 0
-    for f in F.fns:
+    for f in F.live_fns:
         if "blocks" not in f:
             continue
         b = None
@@ -62,7 +62,7 @@ def _offset_params(f):
 
 def _view_methods(F):
     out = []
-    for f in F.fns:
+    for f in F.live_fns:
         if f["kind"] == "closure" or "blocks" not in f:
             continue
         s = f.get("impl_self", "")
@@ -149,7 +149,10 @@ def _callee_seq(F, f):
             c = n.get("callee") or {}
             nm = c.get("def") or c.get("ctor") or c.get("expr")
             if nm and not re.search(r"^std::(prelude|result|option)|::Ok$|::Some$", nm):
-                out.append(re.sub(r"<.*?>", "", nm))
+                nm = re.sub(r"<.*?>", "", nm)
+                # a call to the type's own method: the sibling's counterpart is compared as its own pair
+                nm = re.sub(r"^reader::byte_(region::ByteRegion|slice::ByteSlice)::(::)?", "Self::", nm)
+                out.append(nm)
         elif n.get("k") == "struct":
             out.append("struct " + re.sub(r"<.*", "", n["path"].split("::")[-1]))
     return out
